@@ -113,7 +113,7 @@ fn full_menu() -> Vec<H> {
         m.push(rule(w, 65536, -w));
     }
     for c in ['x', '\\', '\u{10ffff}'] {
-        for orig in ["", "fi", "f|", "é-", "\\n", " \t"] {
+        for orig in ["", "fi", "f|", "é-", "日𝄞", "\u{100000}", "\\n", " \t"] {
             for (l, r) in [(false, false), (true, false), (false, true), (true, true)] {
                 for f in [0, u32::MAX] {
                     m.push(lig(c, orig, f, l, r));
@@ -123,7 +123,7 @@ fn full_menu() -> Vec<H> {
     }
     m.push(H::Discretionary(ds::Discretionary::new()));
     m.push(H::Discretionary(ds::Discretionary { pre_break: vec![D::Char(ds::Char { char: '-', font: 0 }), D::Kern(ds::Kern { width: Scaled(5), kind: ds::KernKind::Normal })], post_break: vec![h_to_d(&lig('f', "ff", 0, false, false)).unwrap()], replace_count: 3 }));
-    for rc in [1, 255, i32::MAX as u32, u32::MAX] {
+    for rc in [1, 255, 256, i32::MAX as u32, 1 << 31, u32::MAX] {
         m.push(H::Discretionary(ds::Discretionary { pre_break: vec![], post_break: vec![], replace_count: rc }));
     }
     for e in [ch('a', 0), ch('b', u32::MAX), H::HBox(hbox([1, 2, 3, 4], (1, 2), GlueOrder::Fil, vec![ch('q', 0)])), H::VBox(vbox([1, 2, 3, 4], some_v_list())), rule(i32::MIN, 1, i32::MIN), lig('x', "ab", 1, true, false), kern(-1)] {
@@ -155,7 +155,7 @@ fn full_menu() -> Vec<H> {
     m.push(H::Adjust(ds::Adjust { list: vec![V::Penalty(ds::Penalty(1))] }));
     m.push(H::Adjust(ds::Adjust { list: vec![V::VBox(vbox([1, 0, 0, 0], some_v_list())), V::Kern(ds::Kern { width: Scaled(1), kind: ds::KernKind::Normal })] }));
     for n in [0u8, 1, 255] {
-        for fp in [0u32, 10000, u32::MAX] {
+        for fp in [0u32, 10000, i32::MAX as u32, 1 << 31, u32::MAX] {
             m.push(insertion(n, [1, 2], Glue { width: Scaled(3), ..Default::default() }, fp, vec![]));
         }
     }
@@ -169,7 +169,7 @@ fn full_menu() -> Vec<H> {
 
 /// A short menu with one or two representatives of every node kind, for longer lists and nesting.
 fn reduced_menu() -> Vec<H> {
-    let mut m = vec![ch('a', 0), ch('b', 0), ch('\\', 0), ch('é', 1), ch('\n', u32::MAX), ch('\u{10ffff}', 1), kern(0), kern(-1), kern(MAXD), H::Penalty(ds::Penalty(0)), H::Penalty(ds::Penalty(i32::MAX)), H::Penalty(ds::Penalty(-10000))];
+    let mut m = vec![ch('a', 0), ch('b', 0), ch('\\', 0), ch('é', 1), ch('日', 1), ch('𝄞', 2), ch('\n', u32::MAX), ch('\u{10ffff}', 1), kern(0), kern(-1), kern(MAXD), H::Penalty(ds::Penalty(0)), H::Penalty(ds::Penalty(i32::MAX)), H::Penalty(ds::Penalty(-10000))];
     m.push(glue(0, 0, GlueOrder::Normal, 0, GlueOrder::Normal));
     m.push(glue(65536, 21845, GlueOrder::Fil, -9362, GlueOrder::Filll));
     m.push(glue(-MAXD, MAXD, GlueOrder::Normal, 1, GlueOrder::Fill));
@@ -177,6 +177,7 @@ fn reduced_menu() -> Vec<H> {
     m.push(rule(1, -1, 0));
     m.push(lig('x', "fi", 0, false, false));
     m.push(lig('\\', "é-", u32::MAX, true, true));
+    m.push(lig('𝄞', "日\u{fffff}", 1 << 31, false, true));
     m.push(H::Discretionary(ds::Discretionary::new()));
     m.push(H::Discretionary(ds::Discretionary { pre_break: vec![D::Char(ds::Char { char: '-', font: 0 }), D::Kern(ds::Kern { width: Scaled(5), kind: ds::KernKind::Normal })], post_break: vec![h_to_d(&lig('f', "ff", 0, false, true)).unwrap()], replace_count: 3 }));
     m.push(H::HBox(hbox([0, 0, 0, 0], (0, 1), GlueOrder::Normal, vec![])));
@@ -369,7 +370,7 @@ fn check_text<T: PartialEq + std::fmt::Debug>(idx: u64, how: &str, text: &str, d
         Err(errs) => {
             // D20: predicate on the case + adjusted expectation (one IncorrectType error for glue_ratio per offending box)
             if d20 > 0 && errs.len() == d20 && errs.iter().all(|e| e.variant == "IncorrectType" && e.parameter == "glue_ratio") {
-                if !acc.known.contains_key("D20") || how.starts_with("element") || how.contains("vertical") {
+                if !acc.known.contains_key("D20") || how.starts_with("element") || how == "as a vertical list" {
                     // one hit per list: the second printer of the same list is not counted again
                     acc.known("D20", idx, || json!({"case": case(), "printed": text, "errors": format!("{errs:?}")}));
                     acc.class("D20: glue ratio >= 16384 prints but does not parse");
@@ -496,14 +497,32 @@ fn check_vlist(idx: u64, list: &Vec<V>, acc: &mut Acc, sel: &dyn Fn() -> Value) 
     if d20 > 0 {
         acc.count("glue_ratio_ge_16384");
     }
-    let text = match catch(|| print_v_list(list)) {
-        Ok(t) => t,
-        Err(p) => {
-            fail(acc, idx, case(), "text", p.describe(), "printing the vertical list panicked");
-            return;
+    let mut all_ok = true;
+    for (how, printer) in [("as a vertical list", &(|| print_v_list(list)) as &dyn Fn() -> String), ("vertical, element by element (ast::Vertical Display)", &|| list.iter().map(|v| v.to_box_lang().to_string()).collect())] {
+        let text = match catch(printer) {
+            Ok(t) => t,
+            Err(p) => {
+                fail(acc, idx, case(), "text", p.describe(), format!("printing {how} panicked"));
+                return;
+            }
+        };
+        all_ok &= check_text(idx, how, &text, d20, Judge::Full, &parse_v, list, acc, &case);
+    }
+    // the Display of ds::VBox is a route of its own (ast::VBox Display): its text is a horizontal-mode `vbox(..)` call
+    for v in list {
+        if let V::VBox(b) = v {
+            acc.count("vbox_display_route");
+            let hl = vec![H::VBox(b.clone())];
+            match catch(|| b.to_string()) {
+                Ok(text) => all_ok &= check_text(idx, "with the Display of ds::VBox", &text, d20_boxes_h(&hl), Judge::Full, &parse_h, &hl, acc, &case),
+                Err(p) => {
+                    fail(acc, idx, case(), "text", p.describe(), "the Display of ds::VBox panicked");
+                    all_ok = false;
+                }
+            }
         }
-    };
-    if check_text(idx, "as a vertical list", &text, d20, Judge::Full, &parse_v, list, acc, &case) {
+    }
+    if all_ok {
         acc.class("ok vertical list");
     }
 }
@@ -741,6 +760,10 @@ fn arg_matrix_sources() -> Vec<String> {
         out.push(format!("{f}(nosuch=1)"));
         out.push(format!("{f}"));
         out.push(format!("{f}({})", vec!["1"; 10].join(", ")));
+        for k in 3..=6 {
+            out.push(format!("{f}({})", vec!["1pt"; k].join(", ")));
+            out.push(format!("{f}({})", (0..k).map(|j| format!("k{j}=1pt")).collect::<Vec<_>>().join(", ")));
+        }
     }
     out
 }
@@ -914,6 +937,44 @@ fn main() {
             let body: String = vcore::nth_string(k, i).into_iter().map(|j| boxl::STRING_PIECES[j as usize]).collect();
             check_source(i, &format!("chars(\"{body}\")"), acc);
         });
+        // \u{..} escapes: both sides of every digit-count and scalar-value limit, in every string position
+        let hexes = ["", "0", "41", "7F", "80", "FF", "100", "7FF", "800", "FFF", "1000", "D7FF", "D800", "DFFF", "E000", "FFFF", "10000", "FFFFF", "100000", "10FFFE", "10FFFF", "10ffff", "110000", "FFFFFF", "1000000", "0010FFFF", "00000041", "FFFFFFFF", "100000000", "1G", "g", " 41", "é"];
+        let mut us: Vec<String> = vec![];
+        for h in hexes {
+            for (open, close) in [("\\u{", "}"), ("\\u{", ""), ("\\u", "}"), ("\\U{", "}")] {
+                let e = format!("{open}{h}{close}");
+                us.push(format!("chars(\"{e}\")"));
+                us.push(format!("chars(\"a{e}b\", 1)"));
+                us.push(format!("lig(\"{e}\", \"{e}{e}\")"));
+                us.push(format!("chars(\"{e}"));
+            }
+        }
+        let us = &us;
+        ctx.family("source-unicode-escapes", &format!("{} hex strings (both sides of the 2/3/4/5/6/8-digit, surrogate and 10FFFF limits, invalid digits) as \\u{{..}} escape, closed / unclosed / without brace / upper-case U, in chars content, between characters, in lig char and original_chars, and in an unterminated string", hexes.len()), us.len() as u64, |i, acc| check_source(i, &us[i as usize], acc));
+        // truncation at every position and a one-character fault at every position of the printed text of every node kind
+        let base: Vec<String> = menus(|m| m.reduced.iter().map(|h| h.to_string()).collect());
+        let faults: [&str; 9] = ["", "\"", "(", ")", "[", "]", "#", "\\", "é"];
+        let mut cuts: Vec<(usize, usize, usize)> = vec![]; // (text, char position, kind: 0 = prefix, 1.. = replace the character by faults[kind-1])
+        for (t, text) in base.iter().enumerate() {
+            for (pos, _) in text.char_indices() {
+                for kind in 0..=faults.len() {
+                    cuts.push((t, pos, kind));
+                }
+            }
+        }
+        let (base, cuts) = (&base, &cuts);
+        ctx.family("source-faults", &format!("the printed text of each of the {} nodes of the reduced menu (every node kind, nested lists, escapes, multi-byte characters), cut at every character position, and with every single character deleted or replaced by one of {:?}", base.len(), &faults[1..]), cuts.len() as u64, |i, acc| {
+            let (t, pos, kind) = cuts[i as usize];
+            let text = &base[t];
+            let clen = text[pos..].chars().next().map(|c| c.len_utf8()).unwrap_or(0);
+            let s = if kind == 0 { text[..pos].to_string() } else { format!("{}{}{}", &text[..pos], faults[kind - 1], &text[pos + clen..]) };
+            if kind == 0 {
+                acc.count("source_truncated");
+            } else if text[..pos].chars().any(|c| c.len_utf8() > 1) {
+                acc.count("fault_after_multibyte_text");
+            }
+            check_source(i, &s, acc);
+        });
         let ns = number_sources(&numbers);
         let ns = &ns;
         ctx.family("source-numbers", &format!("{} number lexemes (sign x integer part up to 20 digits x fraction x unit) as penalty / kern / glue stretch+shrink / font / glue_ratio argument and bare", numbers.len()), ns.len() as u64, |i, acc| check_source(i, &ns[i as usize], acc));
@@ -921,6 +982,9 @@ fn main() {
         let am = &am;
         ctx.family("source-argument-matrix", &format!("every function x every parameter (positional, keyword, two positional) x {} values of every type and near misses; duplicate, unknown, too many arguments", boxl::ARG_VALUES.len()), am.len() as u64, |i, acc| check_source(i, &am[i as usize], acc));
     }
+    ctx.require("vbox_display_route", "a vbox printed through the Display of ds::VBox");
+    ctx.require("source_truncated", "a printed text cut at an inner position");
+    ctx.require("fault_after_multibyte_text", "a one-character fault placed after multi-byte text");
     ctx.require("adjacent_chars_same_font_merge", "two adjacent characters in the same font (printed as one chars call by the list printer)");
     ctx.require("adjacent_chars_different_font", "two adjacent characters in different fonts");
     ctx.require("text_has_escape", "the printed text contains an escape sequence");
